@@ -84,7 +84,7 @@ def run(ctx, prop, known_sig=None):
             viols.append(("crash", v, b"", []))
             continue
         # shrink: ddmin over bytes (chunking dropped if the failure persists without it)
-        data, ch, mode = c["input"], c["chunks"], {"roundtrip": 2, "readerror": 3}.get(c["kind"], 0)
+        data, ch, mode = c["input"], c["chunks"], KIND_MODE.get(c["kind"], 0)
         if mode == 0 and replay_bytes(binp, data, []) is not None:
             ch = []
         if mode in (0, 2) and len(data) > 14:
@@ -150,7 +150,12 @@ def run(ctx, prop, known_sig=None):
         open(f, "wb").write(data)
         if ch:
             open(f + ".chunks", "w").write(",".join(str(c) for c in ch))
+        if KIND_MODE.get(kind):
+            open(f + ".mode", "w").write(str(KIND_MODE[kind]))
         ctx.stats.violations.append(("%s: %s input=%r chunks=%r" % (kind, msg, data[:200], ch), f))
+
+
+KIND_MODE = {"roundtrip": 2, "readerror": 3, "shortwrite": 4}
 
 
 def replay(ctx, prop, path):
@@ -177,7 +182,10 @@ def replay(ctx, prop, path):
     if os.path.exists(path + ".chunks"):
         ch = [int(x) for x in open(path + ".chunks").read().split(",") if x]
     out = []
-    for mode in (0, 2) if prop == 5 else (0,):
+    modes = (0, 2) if prop == 5 else (0,)
+    if os.path.exists(path + ".mode"):
+        modes = (int(open(path + ".mode").read().strip() or 0),)
+    for mode in modes:
         v = replay_bytes(binp, data, ch, mode)
         if v:
             out.append(v)
